@@ -47,9 +47,21 @@ def isConst? : P → Option Rat
 def closedValue? (e : Expr) : Option Rat :=
   if (Expr.fv e).isEmpty then Expr.eval Alg.rat (fun _ => none) e else none
 
+/-! canonical text of a polynomial (monomials in lexicographic order of their text): the key of a function call whose
+    arguments are polynomials — `ceiling(L*3/2)` and `ceiling(3*L/2)` are the same atom, as they are the same sympy object -/
+def monoKey (m : Mono) : String := "*".intercalate (m.map fun xk => xk.1 ++ "^" ++ toString xk.2)
+
+def insertKey (x : String × Rat) : List (String × Rat) → List (String × Rat)
+  | [] => [x]
+  | y :: t => if x.1 < y.1 then x :: y :: t else y :: insertKey x t
+
+def key (p : P) : String :=
+  let terms := (p.map fun mc => (monoKey mc.1, mc.2)).foldr insertKey []
+  "+".intercalate (terms.map fun t => toString t.2.num ++ "/" ++ toString t.2.den ++ "·" ++ t.1)
+
 mutual
 /-- normalise; anything that is not + − × literal-power is an opaque atom; closed sub-expressions
-    with an exact value are folded first -/
+    with an exact value are folded first; the arguments of a function call are normalised inside the atom's key -/
 def ofExprCore : Expr → P
   | .num q => const q
   | .sym s => var s
@@ -61,11 +73,15 @@ def ofExprCore : Expr → P
   | .bin .pow a (.num q) =>
       if q.den = 1 ∧ q.num ≥ 0 ∧ q.num ≤ 8 then pow (fold a) q.num.toNat
       else var (toString (Expr.toSexp (.bin .pow a (.num q))))
+  | .app f args => var ("(app " ++ f ++ " " ++ " ".intercalate (foldKeys args) ++ ")")
   | e => var (toString (Expr.toSexp e))
 def fold : Expr → P
   | e => match closedValue? e with
     | some q => const q
     | none => ofExprCore e
+def foldKeys : List Expr → List String
+  | [] => []
+  | a :: as => ("[" ++ key (fold a) ++ "]") :: foldKeys as
 end
 
 def ofExpr (e : Expr) : P := match closedValue? e with
